@@ -1,0 +1,156 @@
+//! Verification hooks, compiled only with `--cfg rs_store_verif`.
+//!
+//! * `point(label)` / `leave(label)`: notifications placed immediately before operations that can
+//!   block (or that take a lock which is held across a blocking operation) and at the end of the
+//!   store's own threads. With no hook installed they do nothing.
+//! * thin public wrappers around crate-private pieces (the backpressure channel, `iter_with`,
+//!   the configuration of the dispatch channel) so that an external harness can drive them.
+//!
+//! Nothing in here changes the behaviour of the store.
+use crate::channel::{BackpressureChannel, BackpressurePolicy, ReceiverChannel, SenderChannel};
+use crate::metrics::CountMetrics;
+use crate::store_impl::ActionOp;
+use crate::StoreImpl;
+use std::sync::atomic::{AtomicBool, Ordering};
+use std::sync::{Arc, RwLock};
+use std::time::Instant;
+
+/// the hook: (label, is_leave)
+pub type Hook = dyn Fn(&'static str, bool) + Send + Sync;
+
+static INSTALLED: AtomicBool = AtomicBool::new(false);
+static HOOK: RwLock<Option<Arc<Hook>>> = RwLock::new(None);
+
+/// install (or remove) the process-global hook
+pub fn set_hook(hook: Option<Arc<Hook>>) {
+    let mut h = HOOK.write().unwrap();
+    INSTALLED.store(hook.is_some(), Ordering::SeqCst);
+    *h = hook;
+}
+
+fn call(label: &'static str, is_leave: bool) {
+    if !INSTALLED.load(Ordering::SeqCst) {
+        return;
+    }
+    let hook = HOOK.read().unwrap().clone();
+    if let Some(hook) = hook {
+        hook(label, is_leave);
+    }
+}
+
+/// a park point: the calling thread is about to perform the operation named by `label`
+#[inline]
+pub fn point(label: &'static str) {
+    call(label, false);
+}
+
+/// a pass-through notification: the calling thread has finished the activity named by `label`
+#[inline]
+pub fn leave(label: &'static str) {
+    call(label, true);
+}
+
+/// calls `leave(label)` when dropped (also during unwinding)
+pub struct LeaveOnDrop(pub &'static str);
+
+impl Drop for LeaveOnDrop {
+    fn drop(&mut self) {
+        leave(self.0);
+    }
+}
+
+/// policy codes used by the wrappers: 0 = BlockOnFull, 1 = DropOldest, 2 = DropLatest
+pub fn policy_code(policy: &BackpressurePolicy) -> u8 {
+    match policy {
+        BackpressurePolicy::BlockOnFull => 0,
+        BackpressurePolicy::DropOldest => 1,
+        BackpressurePolicy::DropLatest => 2,
+    }
+}
+
+/// sending half of a real `BackpressureChannel`
+pub struct VSender<T: Send + Sync + Clone + 'static> {
+    tx: SenderChannel<T>,
+    metrics: Arc<CountMetrics>,
+}
+
+/// receiving half of a real `BackpressureChannel`
+pub struct VReceiver<T: Send + Sync + Clone + 'static> {
+    rx: ReceiverChannel<T>,
+}
+
+/// a real backpressure channel with its own metrics
+pub fn channel_pair<T: Send + Sync + Clone + 'static>(
+    capacity: usize,
+    policy: BackpressurePolicy,
+) -> (VSender<T>, VReceiver<T>) {
+    let metrics = Arc::new(CountMetrics::default());
+    let (tx, rx) =
+        BackpressureChannel::<T>::pair_with("verif", capacity, policy, Some(metrics.clone()));
+    (VSender { tx, metrics }, VReceiver { rx })
+}
+
+impl<T: Send + Sync + Clone + 'static> VSender<T> {
+    /// `Some(x)` sends an action, `None` the exit marker; returns whether the send reported Ok
+    pub fn send(&self, item: Option<T>) -> bool {
+        let op = match item {
+            Some(x) => ActionOp::Action(x),
+            None => ActionOp::Exit(Instant::now()),
+        };
+        self.tx.send(op).is_ok()
+    }
+
+    /// the value of the dropped-actions counter of this channel
+    pub fn dropped(&self) -> usize {
+        self.metrics.action_dropped.load(Ordering::SeqCst)
+    }
+}
+
+impl<T: Send + Sync + Clone + 'static> VReceiver<T> {
+    /// `None`: disconnected; `Some(None)`: exit marker; `Some(Some(x))`: an action
+    pub fn recv(&self) -> Option<Option<T>> {
+        self.rx.recv().map(|op| match op {
+            ActionOp::Action(x) => Some(x),
+            ActionOp::Exit(_) => None,
+        })
+    }
+
+    /// `None`: empty or disconnected
+    pub fn try_recv(&self) -> Option<Option<T>> {
+        self.rx.try_recv().map(|op| match op {
+            ActionOp::Action(x) => Some(x),
+            ActionOp::Exit(_) => None,
+        })
+    }
+}
+
+/// capacity and policy code of the dispatch channel (None once the store has been closed)
+pub fn dispatch_channel_info<State, Action>(store: &StoreImpl<State, Action>) -> Option<(usize, u8)>
+where
+    State: Send + Sync + Clone + 'static,
+    Action: Send + Sync + Clone + 'static,
+{
+    store.dispatch_tx.lock().unwrap().as_ref().map(|tx| tx.verif_info())
+}
+
+/// number of registered reducers
+pub fn reducer_count<State, Action>(store: &StoreImpl<State, Action>) -> usize
+where
+    State: Send + Sync + Clone + 'static,
+    Action: Send + Sync + Clone + 'static,
+{
+    store.reducers.lock().unwrap().len()
+}
+
+/// `StoreImpl::iter_with` (crate-private) for the harness
+pub fn iter_with<State, Action>(
+    store: &StoreImpl<State, Action>,
+    capacity: usize,
+    policy: BackpressurePolicy,
+) -> Box<dyn Iterator<Item = (State, Action)> + Send>
+where
+    State: Send + Sync + Clone + 'static,
+    Action: Send + Sync + Clone + 'static,
+{
+    Box::new(store.iter_with(capacity, policy))
+}
